@@ -1281,14 +1281,9 @@ func (x *Exec) pivotOffset(env *SpecEnv, body Expr, name string) (off Term, ok b
 	default:
 		return Term{}, false
 	}
-	// the offset must be closed (no bound variables)
-	for vn, vv := range env.vars {
-		_ = vn
-		if sc, isS := vv.V.(VScalar); isS && strings.HasPrefix(sc.T.S, "q.") && strings.Contains(o.S, sc.T.S) {
-			return Term{}, false
-		}
-	}
-	if strings.Contains(o.S, "q.") {
+	// the offset may mention other bound variables (s itself may be indexed by an outer variable, as in
+	// chunks[a][j]): for each of their values J -> J - off is still a bijection. It must not mention j itself.
+	if self, isS := env.vars[name].V.(VScalar); isS && strings.Contains(o.S, self.T.S) {
 		return Term{}, false
 	}
 	return o, true
